@@ -40,7 +40,7 @@ def gen(rng, tier, i):
     if rng.random() < 0.03: script = {'net': 'b01', 'ffs': [1], 'style': 'b'}
     sims = rng.randint(1, 6)
     n_sets = rng.choice([1, 1, 2, 3])
-    batches = wavegen.gen_batches(rng, n_max=3, sims=sims, p_k=0.0)
+    batches = wavegen.gen_batches(rng, n_max=3, sims=sims, p_k=0.0, p_reprop=0.2)
     if script['ffs'] or script['style'] == 'b':
         if rng.random() < 0.6:
             batches[-1]['ppo2ppi'] = True
